@@ -166,6 +166,13 @@ func c07Inputs(c *Ctx) []c07Input {
 	add("pem", "blank-lines", []byte(lines[0]+"\n\n\n"+strings.Join(lines[1:], "\n\n")+"\n"))
 	add("pem", "nul-bytes", append([]byte(lines[0]+"\n"), make([]byte, 300)...))
 	add("pem", "huge-first-line", bytes.Repeat([]byte("-"), 70000))
+	// what precedes the first line: nothing but a line end, blank lines before the armour or before DER, blanks, a BOM
+	pemText := strings.Join(lines, "\n") + "\n"
+	for name, prefix := range map[string]string{"lf": "\n", "crlf": "\r\n", "cr": "\r", "lf-lf": "\n\n", "space": " ", "tab-lf": "\t\n", "bom": "\xef\xbb\xbf", "dash": "-", "dash-lf": "-\n", "nul-lf": "\x00\n"} {
+		add("pem", "only-"+name, []byte(prefix))
+		add("pem", name+"-then-pem", []byte(prefix+pemText))
+		add("pem", name+"-then-der", append([]byte(prefix), base...))
+	}
 	// nesting
 	deep := []byte{}
 	for i := 0; i < 300; i++ {
